@@ -126,6 +126,7 @@ func EvaluateAlignment(fromDomain string, record *Record, results []authres.Resu
 		dkimResult   = authres.DKIMResult{}
 		dkimPresent  = false
 		dkimTempFail = false
+		spfTempFail  = false
 	)
 	for _, res := range results {
 		if dkimRes, ok := res.(*authres.DKIMResult); ok {
@@ -154,8 +155,13 @@ func EvaluateAlignment(fromDomain string, record *Record, results []authres.Resu
 			} else {
 				aligned = isAligned(fromDomain, spfRes.From, record.SPFAlignment)
 			}
-			if aligned && spfRes.Value == authres.ResultPass {
-				spfAligned = true
+			if aligned {
+				switch spfRes.Value {
+				case authres.ResultPass:
+					spfAligned = true
+				case authres.ResultTempError:
+					spfTempFail = true
+				}
 			}
 		}
 	}
@@ -185,7 +191,7 @@ func EvaluateAlignment(fromDomain string, record *Record, results []authres.Resu
 		}
 		return res
 	}
-	if !dkimAligned && spfResult.Value == authres.ResultTempError {
+	if spfTempFail && !dkimAligned && !spfAligned {
 		// We can't be sure whether it is aligned or not. Bail out.
 		res.Authres = authres.DMARCResult{
 			Value:  authres.ResultTempError,
